@@ -6,6 +6,9 @@
 package lexer
 
 //@ typeinv Lexer: self.commentMap != nil
+//@ typeinv Lexer [C13,C01]: self.nowToken.valid ==> self.line >= self.nowToken.line
+//@ typeinv Lexer [C13,C01]: self.line >= 1
+//@ typeinv Lexer [C13,C01]: self.aheadToken.valid ==> self.line >= self.aheadToken.line
 
 // ---- C05: order predicates on source ranges (lines from 1, columns from 0) ----
 //@ spec locBefore(sl int, sc int, ol int, oc int) bool = sl < ol || (sl == ol && sc <= oc)
@@ -55,6 +58,7 @@ package lexer
 
 //@ func NewLexer
 //@   sweep C01
+//@   ensures[C01] result != nil
 //@ end
 
 //@ func (*Lexer).SetErrHandler
@@ -72,11 +76,13 @@ package lexer
 
 //@ func (*Lexer).lookAheardToken
 //@   sweep C01
+//@   ensures[C01,lookahead-restores-tokens] l.nowToken == old(l.nowToken) && l.preToken == old(l.preToken) && l.line >= old(l.line) && l.aheadToken.valid
 //@   ensures[C01,chunk-only-shrinks] len(l.chunk) <= old(len(l.chunk))
 //@ end
 
 //@ func (*Lexer).LookAheadKind
 //@   sweep C01
+//@   ensures[C01,C03,returns-the-pending-token-kind] l.aheadToken.valid && result == l.aheadToken.tokenKind
 //@   ensures[C01,chunk-only-shrinks] len(l.chunk) <= old(len(l.chunk))
 //@ end
 
@@ -91,12 +97,16 @@ package lexer
 
 //@ func (*Lexer).GetNowTokenLoc
 //@   sweep C01
+//@   ensures[C01,C13,loc-ends-on-the-token-line] old(l.nowToken.valid) ==> result.EndLine == l.nowToken.line
+//@   ensures[C01,keeps-tokens] l.nowToken == old(l.nowToken) && l.preToken == old(l.preToken)
+//@   ensures[C01,line-only-grows] l.line >= old(l.line)
 //@   ensures[C01,chunk-only-shrinks] len(l.chunk) <= old(len(l.chunk))
-//@   ensures[C01,frame-when-valid] old(l.nowToken.valid) ==> l.chunk == old(l.chunk) && l.currentPos == old(l.currentPos) && l.line == old(l.line) && l.lineStartPos == old(l.lineStartPos) && l.commentMap == old(l.commentMap)
+//@   ensures[C01,frame-when-valid] old(l.nowToken.valid) ==> l.chunk == old(l.chunk) && l.currentPos == old(l.currentPos) && l.line == old(l.line) && l.lineStartPos == old(l.lineStartPos) && l.commentMap == old(l.commentMap) && l.nowToken == old(l.nowToken)
 //@ end
 
 //@ func (*Lexer).GetHeardTokenLoc
 //@   sweep C01
+//@   ensures[C01,lookahead-restores-tokens] l.nowToken == old(l.nowToken) && l.preToken == old(l.preToken) && l.line >= old(l.line) && l.aheadToken.valid
 //@   ensures[C01,chunk-only-shrinks] len(l.chunk) <= old(len(l.chunk))
 //@ end
 
@@ -107,25 +117,33 @@ package lexer
 
 //@ func (*Lexer).NextTokenKind
 //@   sweep C01
+//@   props C03
+//@   ensures[C03,error-iff-kind-mismatch] (hits("errorPrint#0") >= 1) <==> (kind != l.nowToken.tokenKind)
 //@   ensures[C01,chunk-only-shrinks] len(l.chunk) <= old(len(l.chunk))
 //@ end
 
 //@ func (*Lexer).NextToken
 //@   sweep C01
+//@   pure
 //@   ensures[C01,chunk-only-shrinks] len(l.chunk) <= old(len(l.chunk))
 //@ end
 
 //@ func (*Lexer).setNowToken
 //@   sweep C01
+//@   pure
 //@ end
 
 //@ func (*Lexer).NextTokenStruct
 //@   sweep C01
+//@   ensures[C01,line-only-grows] l.line >= old(l.line)
+//@   ensures[C01,now-token-valid] l.nowToken.valid
 //@   ensures[C01,chunk-only-shrinks] len(l.chunk) <= old(len(l.chunk))
 //@ end
 
 //@ func (*Lexer).scanIllegalToken
 //@   sweep C01
+//@   ensures[C01,keeps-now-token] l.nowToken == old(l.nowToken)
+//@   ensures[C01,line-only-grows] l.line >= old(l.line)
 //@   loop 0 decreases len(l.chunk) - i
 //@   ensures len(l.chunk) < old(len(l.chunk))
 //@   requires len(l.chunk) >= 1
@@ -166,6 +184,10 @@ package lexer
 
 //@ func (*Lexer).skipWhiteSpaces
 //@   sweep C01
+//@   opt infer
+//@   ensures[C01,line-only-grows] l.line >= old(l.line)
+//@   props C13
+//@   loop 0 invariant [C13,pending-block-is-a-head-comment] (commentInfo != nil ==> commentInfo.HeadFlag && (l.nowToken.valid ==> l.line > l.nowToken.line)) && (l.nowToken.valid ==> l.line >= l.nowToken.line) && l.nowToken == old(l.nowToken) && l.line >= 1
 //@   loop 0 invariant len(l.chunk) <= old(len(l.chunk))
 //@   ensures[C01,chunk-only-shrinks] len(l.chunk) <= old(len(l.chunk))
 //@   loop 0 decreases len(l.chunk)
@@ -173,6 +195,11 @@ package lexer
 
 //@ func (*Lexer).skipComment
 //@   sweep C01
+//@   props C03 C13
+//@   ensures[C03,short-comment-ends-at-first-line-break] shortFlag ==> forall(k, 0, len(strComment), strComment[k] != 10 && strComment[k] != 13) && (len(l.chunk) == 0 || l.chunk[0] == 10 || l.chunk[0] == 13)
+//@   ensures[C01,line-only-grows] l.line >= old(l.line) && l.nowToken == old(l.nowToken)
+//@   ensures[C13,short-comment-text-is-verbatim] shortFlag ==> len(strComment) + len(l.chunk) + 2 == old(len(l.chunk)) && forall(k, 0, len(strComment), strComment[k] == old(l.chunk)[k + 2])
+//@   loop 0 invariant [C03,C13] 0 <= index && index <= lenChunk && lenChunk == len(l.chunk) && len(l.chunk) + 2 == old(len(l.chunk)) && forall(k, 0, index, l.chunk[k] != 10 && l.chunk[k] != 13) && forall(k, 0, len(l.chunk), l.chunk[k] == old(l.chunk)[k + 2])
 //@   loop 0 decreases len(l.chunk) - index
 //@   ensures len(l.chunk) < old(len(l.chunk))
 //@   requires len(l.chunk) >= 2
@@ -180,6 +207,8 @@ package lexer
 
 //@ func (*Lexer).scanIdentifier
 //@   sweep C01
+//@   ensures[C01,keeps-now-token] l.nowToken == old(l.nowToken)
+//@   ensures[C01,line-only-grows] l.line >= old(l.line)
 //@   loop 0 decreases len(l.chunk) - i
 //@   ensures len(l.chunk) < old(len(l.chunk))
 //@   requires len(l.chunk) >= 1
@@ -191,6 +220,8 @@ package lexer
 
 //@ func (*Lexer).scanNumber
 //@   sweep C01
+//@   ensures[C01,keeps-now-token] l.nowToken == old(l.nowToken)
+//@   ensures[C01,line-only-grows] l.line >= old(l.line)
 //@   loop 0 decreases len(l.chunk) - i
 //@   ensures len(l.chunk) < old(len(l.chunk))
 //@   requires len(l.chunk) >= 1 && (l.chunk[0] == 46 ==> len(l.chunk) >= 2)
@@ -198,6 +229,7 @@ package lexer
 
 //@ func (*Lexer).scanLongString
 //@   sweep C01
+//@   ensures[C01,line-only-grows] l.line >= old(l.line) && l.nowToken == old(l.nowToken)
 //@   ensures len(l.chunk) <= old(len(l.chunk))
 //@   requires len(l.chunk) >= 2 && l.chunk[0] == 91
 //@   unchecked bounds:slice#0 the first occurrence of the closing bracket lies after the opening one (needs strings.Replace/Index content contracts; argument: no byte of the opening bracket is ']')
@@ -224,6 +256,8 @@ package lexer
 
 //@ func (*Lexer).consumeEOL
 //@   sweep C01
+//@   ensures[C01,keeps-now-token] l.nowToken == old(l.nowToken)
+//@   ensures[C01,line-only-grows] l.line >= old(l.line)
 //@   requires i != nil && 0 <= deref(i) && deref(i) < len(l.chunk)
 //@   ensures deref(i) >= old(deref(i)) && deref(i) <= len(l.chunk) && l.chunk == old(l.chunk) && (result ==> deref(i) > old(deref(i))) && (!result ==> deref(i) == old(deref(i)))
 //@ end
@@ -235,6 +269,10 @@ package lexer
 
 //@ func (*Lexer).readEscapeSequence
 //@   sweep C01
+//@   loop 0 invariant [C01] l.line >= old(l.line) && l.nowToken == old(l.nowToken)
+//@   loop 1 invariant [C01] l.line >= old(l.line) && l.nowToken == old(l.nowToken)
+//@   ensures[C01,keeps-now-token] l.nowToken == old(l.nowToken)
+//@   ensures[C01,line-only-grows] l.line >= old(l.line)
 //@   loop 0 decreases len(l.chunk) - deref(i)
 //@   loop 1 decreases len(l.chunk) - deref(i)
 //@   requires i != nil && 0 <= deref(i) && deref(i) <= len(l.chunk)
@@ -243,6 +281,9 @@ package lexer
 
 //@ func (*Lexer).scanShortString
 //@   sweep C01
+//@   loop 0 invariant [C01] l.line >= old(l.line) && l.nowToken == old(l.nowToken)
+//@   ensures[C01,keeps-now-token] l.nowToken == old(l.nowToken)
+//@   ensures[C01,line-only-grows] l.line >= old(l.line)
 //@   loop 0 decreases len(l.chunk) - i
 //@   ensures len(l.chunk) < old(len(l.chunk))
 //@   requires len(l.chunk) >= 1
